@@ -98,4 +98,13 @@ PROPS = {
         ],
         "assumptions": ["duplicates in the query may duplicate answer entries; the filter is specified as a set (C12_filter_spec), as the property's quantifier says"],
     },
+    "C14": {
+        "modules": ["SamlModel.Props.C14"],
+        "translated": ["InflateAndDecode"],
+        "trusted_base": COMMON_TRUST + [
+            "compress/flate is an oracle (Ora.inflate: the byte stream the inflater would deliver); io.LimitReader / io.ReadAll are modelled in Lib.Stream (differentially tested through the InflateAndDecode fn op with the real inflater's behaviour as oracle answer)",
+            "that the Go allocator's usage is proportional to the bytes materialised, and compress/flate's own window, are measured (runtime.MemStats.TotalAlloc delta around one ServeHTTP per bomb), not proved",
+        ],
+        "assumptions": ["the three callers (DecodeAuthNRequest, DecodeLogoutRequest via the SSO/logout form readers) reach the inflater only through InflateAndDecode (fingerprinted)"],
+    },
 }
